@@ -14,6 +14,9 @@
 (*   live    number of OS handles the library holds open (0..2)              *)
 (*   sent    through which handle the last execute sent: none/current/stale  *)
 (*   out     "ok" | "error" outcome of the last library call                 *)
+(*   mode    "ro" | "rw"   the access the caller asked for                    *)
+(*   hmode   the access mode of the library's current handle: a handle       *)
+(*           re-opened after a replug is opened as the first one was          *)
 (* Succ(s, a) is the set of states the library/environment may move to.      *)
 (***************************************************************************)
 EXTENDS Naturals, FiniteSets, TLC
@@ -53,7 +56,7 @@ Succ(s, a) ==
 VARIABLE s
 
 Init == s \in {[node |-> "present", fresh |-> TRUE, handle |-> "open", detect |-> d, armed |-> FALSE,
-                live |-> 1, sent |-> "none", out |-> "ok", act |-> "open"] : d \in BOOLEAN}
+                live |-> 1, sent |-> "none", out |-> "ok", act |-> "open", mode |-> m, hmode |-> m] : d \in BOOLEAN, m \in {"ro", "rw"}}
 \* `act` remembers which action led to the state, so that properties of "the last execute"
 \* can be stated as state invariants
 Step(a) == s' \in {[t EXCEPT !.act = a] : t \in Succ(s, a)}
@@ -79,4 +82,6 @@ FreshAfterExec == s.act = "exec" /\ s.detect /\ s.out = "ok" => s.fresh /\ s.sen
 DetectionOffKeepsHandle == s.act = "exec" /\ ~s.detect => s.out = "ok" /\ s.sent \in {"current", "stale"}
 \* closing a stale handle that fails still leaves a fresh handle open
 ReopenedEvenIfCloseFails == s.act = "exec" /\ s.detect /\ s.node = "present" => s.fresh /\ s.handle = "open"
+\* every handle the library holds was opened with the access the caller asked for (no successor changes hmode)
+ReopenedAsRequested == s.hmode = s.mode
 =============================================================================
